@@ -335,6 +335,92 @@ def library_case(args):
     return results
 
 
+# ---------------------------------------------------------------- two enumerations that share member names
+def shared_names_case(args):
+    """Two enums in one scope with a common member name (legal when at least one is scoped); the later one's
+    expressions refer to ITS OWN member.  Values by position: g++ on the original, gcc on the generated header,
+    gfortran on the generated module, the model."""
+    workdir, scope, first_scoped, second_scoped = args
+    e1 = [("RED", "10"), ("GREEN", None), ("BLUE", "RED * 2")]
+    e2 = [("RED", "1"), ("DARK", "RED + 1"), ("DARKER", None), ("PALE", "DARK * 4"), ("GREEN", "-RED")]
+    def text(name, scoped, mem):
+        return "enum %s%s { %s }" % ("class " if scoped else "", name, ", ".join(n if v is None else "%s = %s" % (n, v) for n, v in mem))
+    enums = [("Color", first_scoped, e1), ("Shade", second_scoped, e2)]
+    decls = [{"decl": text(n, sc, mem)} for n, sc, mem in enums]
+    cxx = [text(n, sc, mem) + ";" for n, sc, mem in enums]
+    if scope == "library":
+        top, hdr, qual = decls, "\n".join(cxx), ""
+    elif scope == "namespace":
+        top, hdr, qual = [{"decl": "namespace ns", "declarations": decls}], "namespace ns {\n%s\n}" % "\n".join(cxx), "ns::"
+    else:
+        top, hdr, qual = [{"decl": "class Cls", "declarations": decls}], "class Cls {\npublic:\n%s\n};" % "\n".join(cxx), "Cls::"
+    y = {"library": "Enums", "cxx_header": "enums.hpp", "declarations": top}
+    label = "%s then %s at %s scope" % (text(*enums[0]), text(*enums[1]), scope)
+    r, tree = gen.gen_tree(workdir, y, keep=True)
+    if r.status != "ok":
+        shutil.rmtree(workdir, ignore_errors=True)
+        return label, "shroud failed: %s %s: %s" % (r.status, r.exc, (r.msg or "")[:200])
+    out = os.path.join(workdir, "out")
+    model = []
+    for n, sc, mem in enums:
+        env, cur = {}, -1
+        for nm, v in mem:
+            cur = cur + 1 if v is None else evaluate(v, env)
+            env[nm] = cur
+            model.append(cur)
+    # C++
+    with open(os.path.join(workdir, "enums.hpp"), "w") as fp:
+        fp.write(hdr + "\n")
+    lines = ["#include <cstdio>", '#include "enums.hpp"', "int main() {"]
+    for n, sc, mem in enums:
+        for nm, _ in mem:
+            lines.append('  std::printf("%%d\\n", static_cast<int>(%s%s%s));' % (qual, (n + "::") if sc else "", nm))
+    lines.append("  return 0; }")
+    open(os.path.join(workdir, "orig.cpp"), "w").write("\n".join(lines) + "\n")
+    rc, so, se = run_cmd(["g++", "-std=c++11", "-o", "orig", "orig.cpp"], workdir)
+    if rc != 0:
+        shutil.rmtree(workdir, ignore_errors=True)
+        raise RuntimeError("harness: g++ rejects %s: %s" % (label, se[:300]))
+    cxxv = [int(x) for x in run_cmd(["./orig"], workdir)[1].split()]
+    # C
+    cnames = []
+    headers = sorted(f for f in os.listdir(out) if f.startswith("wrap") and f.endswith(".h"))
+    blocks = {}
+    for h in headers:
+        for m in re.finditer(r"enum\s+(\w+)\s*\{(.*?)\};", open(os.path.join(out, h)).read(), re.S):
+            blocks[m.group(1)] = [x.strip().split("=")[0].strip() for x in m.group(2).split(",") if x.strip()]
+    for n, sc, mem in enums:
+        blk = [v for k, v in blocks.items() if k.endswith(n)]
+        cnames += blk[0] if blk else []
+    lines = ["#include <stdio.h>"] + ['#include "out/%s"' % h for h in headers] + ["int main(void) {"] + ['  printf("%%d\\n", (int)%s);' % nm for nm in cnames] + ["  return 0; }"]
+    open(os.path.join(workdir, "gen.c"), "w").write("\n".join(lines) + "\n")
+    rc, so, se = run_cmd(["gcc", "-std=c99", "-Iout", "-o", "genc", "gen.c"], workdir)
+    if rc != 0:
+        shutil.rmtree(workdir, ignore_errors=True)
+        return label, "the generated C header does not compile: " + se[:300]
+    cv = [int(x) for x in run_cmd(["./genc"], workdir)[1].split()]
+    # Fortran
+    fmods = sorted(f for f in os.listdir(out) if f.endswith(".f"))
+    fnames, mods = [], []
+    for f in fmods:
+        t = open(os.path.join(out, f)).read()
+        mods.append(re.search(r"^module (\w+)", t, re.M).group(1))
+        fnames += re.findall(r"parameter :: (\w+) =", t)
+    lines = ["program p"] + ["  use %s" % m for m in mods] + ["  implicit none"] + ["  print '(I0)', %s" % nm for nm in fnames] + ["end program p"]
+    open(os.path.join(workdir, "genf.f90"), "w").write("\n".join(lines) + "\n")
+    for f in fmods:
+        rc, so, se = run_cmd(["gfortran", "-cpp", "-ffree-form", "-c", os.path.join("out", f)], workdir)
+        if rc != 0:
+            shutil.rmtree(workdir, ignore_errors=True)
+            return label, "the generated Fortran module does not compile: " + se[:300]
+    rc, so, se = run_cmd(["gfortran", "-o", "genf", "genf.f90"] + [f.replace(".f", ".o") for f in fmods], workdir)
+    fv = [int(x) for x in run_cmd(["./genf"], workdir)[1].split()] if rc == 0 else []
+    shutil.rmtree(workdir, ignore_errors=True)
+    if not (model == cxxv == cv == fv):
+        return label, "values by position: model %s, C++ %s, C header %s (%s), Fortran module %s (%s)" % (model, cxxv, cv, cnames, fv, fnames)
+    return label, None
+
+
 def run(ctx):
     quick = ctx.tier == "quick"
     W = ctx.workers
@@ -363,6 +449,13 @@ def run(ctx):
             if kind == "harness":
                 raise RuntimeError(what)
             ctx.violation(key_for(kind, generic or what), what, {"kind": kind, "what": what})
+    sjobs = [(os.path.join(wd, "s%d" % i), scope, a, b) for i, (scope, (a, b)) in enumerate(
+        itertools.product(SCOPES, [(False, True), (True, False), (True, True)]))]
+    for label, err in isolate.pmap(shared_names_case, sjobs, W):
+        n += 2
+        ctx.outcome("shared names %s" % ("ok" if not err else "bad"))
+        if err:
+            ctx.violation("enum shared-member-names %s" % re.sub(r"\s+", " ", label)[:120], "%s: %s" % (label, err), {"kind": "shared", "label": label})
     ctx.count(states=n, transitions=4 * n, validated=n)
     ctx.nontrivial_n(n)
     ctx.part("enums", declarations=n, libraries=len(jobs), specs=len(specs), scopes=SCOPES, plain_and_scoped=True)
